@@ -189,11 +189,24 @@ def eval_terms(name: str, imports: Sequence[str], terms: Sequence[str], timeout:
     return _coqc(path, timeout)
 
 
-def clean_corr(pid: str = "") -> None:
-    """Remove generated case files of one property (checks of different properties may run concurrently)."""
+def clean_stale(max_age_s: int = 6 * 3600) -> None:
+    """Remove case files left behind by runs that died long ago."""
+    if os.path.isdir(CORR_DIR):
+        now = time.time()
+        for fn in os.listdir(CORR_DIR):
+            fp = os.path.join(CORR_DIR, fn)
+            try:
+                if now - os.path.getmtime(fp) > max_age_s:
+                    os.unlink(fp)
+            except OSError:
+                pass
+
+
+def clean_corr(tag: str = "") -> None:
+    """Remove the generated case files of one run (tag = its process id)."""
     if os.path.isdir(CORR_DIR):
         for fn in os.listdir(CORR_DIR):
-            if pid and f"_{pid}" not in fn:
+            if tag and tag not in fn:
                 continue
             try:
                 os.unlink(os.path.join(CORR_DIR, fn))
